@@ -47,6 +47,9 @@ type c13side struct {
 	docKey   string
 	cli      *client.Client
 	doc      *document.Document
+	// a stored revision of the document and a live channel session of the client
+	revisionID string
+	sessionID  string
 }
 
 type c13world struct {
@@ -114,9 +117,49 @@ func c13Setup(useDefault bool) (*c13world, error) {
 			return nil, err
 		}
 		s.token = lr.Token
+		if err := cw.makeRevisionAndSession(s); err != nil {
+			return nil, err
+		}
 	}
 	w.WaitBackground()
 	return cw, nil
+}
+
+const c13Channel = "room-1"
+
+// makeRevisionAndSession gives the side a stored revision of its document and
+// a live channel session of its client, through the public RPCs.
+func (cw *c13world) makeRevisionAndSession(s *c13side) error {
+	hdr := map[string]string{"x-api-key": s.project.PublicKey, "Authorization": s.project.PublicKey}
+	if s.revisionID == "" {
+		code, emsg, body := c13call(cw.w, "/yorkie.v1.YorkieService/CreateRevision", false,
+			mustMarshal(&api.CreateRevisionRequest{ClientId: s.clientID, DocumentId: s.docID, Label: "rev-" + s.docKey}), hdr)
+		if code != "ok" {
+			return fmt.Errorf("create revision: %s %s", code, emsg)
+		}
+		var r api.CreateRevisionResponse
+		if err := proto.Unmarshal(body, &r); err != nil {
+			return err
+		}
+		s.revisionID = r.Revision.Id
+	}
+	code, emsg, body := c13call(cw.w, "/yorkie.v1.YorkieService/AttachChannel", false,
+		mustMarshal(&api.AttachChannelRequest{ClientId: s.clientID, ChannelKey: c13Channel}), hdr)
+	if code != "ok" {
+		return fmt.Errorf("attach channel: %s %s", code, emsg)
+	}
+	var r api.AttachChannelResponse
+	if err := proto.Unmarshal(body, &r); err != nil {
+		return err
+	}
+	s.sessionID = r.SessionId
+	return nil
+}
+
+// victimSessions is the part of the victim's state that lives outside the
+// database: the sessions of its channel.
+func (cw *c13world) victimSessions() int64 {
+	return cw.w.BE.Channel.SessionCount(types.ChannelRefKey{ProjectID: cw.vic.project.ID, ChannelKey: key.Key(c13Channel)}, false)
 }
 
 func (cw *c13world) refreshAttacker() {
@@ -139,8 +182,12 @@ func (cw *c13world) refreshAttacker() {
 	}
 	s.cli, s.doc, s.clientID = cli, d, cli.ID().String()
 	if di, err := cw.w.BE.DB.FindDocInfoByKey(ctx, s.project.ID, key.Key(s.docKey)); err == nil && di != nil {
+		if s.docID != di.ID.String() {
+			s.revisionID = "" // the document was removed and re-created: its revisions went with it
+		}
 		s.docID = di.ID.String()
 	}
+	_ = cw.makeRevisionAndSession(s)
 	cw.w.WaitBackground()
 }
 
@@ -332,9 +379,9 @@ func (cw *c13world) fill(md protoreflect.MessageDescriptor, assign map[string]st
 		case "dockeys":
 			msg.Mutable(fd).List().Append(protoreflect.ValueOfString(s.docKey))
 		case "chankey":
-			msg.Set(fd, protoreflect.ValueOfString("room-1"))
+			msg.Set(fd, protoreflect.ValueOfString(c13Channel))
 		case "chankeys":
-			msg.Mutable(fd).List().Append(protoreflect.ValueOfString("room-1"))
+			msg.Mutable(fd).List().Append(protoreflect.ValueOfString(c13Channel))
 		case "projectid":
 			msg.Set(fd, str(s.project.ID.String()))
 		case "projectname":
@@ -344,7 +391,7 @@ func (cw *c13world) fill(md protoreflect.MessageDescriptor, assign map[string]st
 				msg.Set(fd, protoreflect.ValueOfString(s.project.Name))
 			}
 		case "revision":
-			msg.Set(fd, str(c13Nonexistent))
+			msg.Set(fd, str(s.revisionID))
 		case "username":
 			if nonex {
 				msg.Set(fd, protoreflect.ValueOfString("nosuchuser"))
@@ -352,7 +399,7 @@ func (cw *c13world) fill(md protoreflect.MessageDescriptor, assign map[string]st
 				msg.Set(fd, protoreflect.ValueOfString(s.user.Username))
 			}
 		case "session":
-			msg.Set(fd, protoreflect.ValueOfString("session-1"))
+			msg.Set(fd, str(s.sessionID))
 		default:
 			// non-id fields: change packs carry a document key; others get benign values
 			switch {
@@ -419,7 +466,7 @@ type c13case struct {
 
 // idKinds are id spaces whose foreign values must be refused (keys merely name
 // another object inside the caller's own project).
-var c13IDKinds = map[string]bool{"client": true, "docid": true, "projectid": true, "projectname": true}
+var c13IDKinds = map[string]bool{"client": true, "docid": true, "projectid": true, "projectname": true, "revision": true, "session": true}
 
 // c13SecretKinds: the property's "cannot learn the existence" clause is about
 // clients and documents (user and project names are account-level names).
@@ -474,12 +521,18 @@ func c13Eval(cw *c13world, c *c13case, md protoreflect.MethodDescriptor) (string
 	path := "/" + string(md.Parent().FullName()) + "/" + string(md.Name())
 	streaming := md.IsStreamingServer() || md.IsStreamingClient()
 	before := cw.victimDump()
+	sessBefore := cw.victimSessions()
 	code, emsg, rb := c13call(cw.w, path, streaming, body, cw.headers(svc, c.Cred))
 	cw.w.WaitBackground()
 	after := cw.victimDump()
 	out := code
 	if before != after {
 		return "victim project's stored state changed (" + code + ")\n" + firstDiff(before, after), out
+	}
+	if n := cw.victimSessions(); n != sessBefore {
+		// repair the victim for the next case, then report
+		_ = cw.makeRevisionAndSession(&cw.vic)
+		return fmt.Sprintf("victim project's channel sessions changed: %d -> %d (%s)", sessBefore, n, code), out
 	}
 	if code == "handler_panic" {
 		anyForeign := false
@@ -626,7 +679,7 @@ func c13Cases(md protoreflect.MethodDescriptor, useDefault bool, cw *c13world) [
 	uniq := map[string]bool{}
 	var ks []string
 	for _, k := range kinds {
-		if !uniq[k] && k != "session" && k != "revision" {
+		if !uniq[k] {
 			uniq[k] = true
 			ks = append(ks, k)
 		}
